@@ -12,6 +12,7 @@ EXPLANATION = ("(R13.4) the free-list rings satisfy the ring shape conditions an
                "impls, zero-copy release/unleak, reservation cancel). Exclusivity under concurrent alloc/dealloc reduces to the free list's "
                "queue correctness (C01/C02), which is not decided here.")
 EXPLANATION += " R13.1 also: alloc_ref answers (None included) only after asking the free list (dequeue or its own length query; no early-out on a side counter), drop_in_place is instantiated at the payload type and sits on the needs_drop side, and read-only length / debug queries of the free list are allowed anywhere; R13.3 has a second layer: the zero-copy containers' unleak_slot_* / release_leaked_* are called only by their consume and the channels' try_cancel_slot_reserve, and each gives its own slot back exactly once per path."
+EXPLANATION += " (R13.5) C14's unique -> shared conversion rules (no slot freed twice); (R13.6) the zero-copy containers' consume runs the getter before giving the slot back (C01 R01.1)."
 ASSUMPTIONS = ["free-list queue (AtomicMove / FullSyncMove) delivers each enqueued id exactly once: C01/C02 clauses"]
 
 POOL = R.POOL
